@@ -17,7 +17,7 @@ P = {
          'Rounding is not covered by the theorems (ideal arithmetic); the d-dimensional continuous statement is about iterated integrals.'),
  'C02': ('Law-generic theorems (every numeric type): an iteration of N calls yields exactly N integrand events, calls = N, the main cell is the translated accumulate folded over the '
          'sanitised (non-zero, finite) products in call order with nz/fin the two filter lengths; VEGAS / multi-channel adjustment data equal explicit per-bin / per-channel fold '
-         'specifications; over the reals Kahan is exact and value / variance / error are the documented formulas (2 <= N < 2^64).',
+         'specifications; over the reals Kahan is exact and value / variance / error are the documented formulas (2 <= N < 2^64); IEEE supplement Properties_C02f: bin indices are in range, so the per-bin reading of the VEGAS data is unconditional.',
          'induction over calls on the executed iteration model + bit-exact correspondence of every accessor',
          'Variance formula needs N >= 2 (the code divides by N-1); floating-point accuracy is C14\'s subject.'),
  'C03': ('Theorems on the run model and the text codec: runs compose (run (l1 ++ l2) = run l2 after run l1 when the callback did not stop), reload (deser after ser) yields an equivalent '
@@ -37,7 +37,7 @@ P = {
          'Flocq real-analysis proof of the radix conversion + structural induction over the codec model; token-exact correspondence',
          'glibc printf/strtod correct rounding and the engines\' own operator<< / >> are assumptions (checked on every number of every text / by a C++-only round trip).'),
  'C06': ('Law-generic twin theorems: one accumulator step, one iteration and a whole multi-iteration run (all three integrators) under f and under its zeroed twin agree on everything '
-         'but the non-zero counter; non-finite fills change no bin. Found and repaired a defect (poisoned-only iteration made the combined result NaN). Paired real runs are compared with the model.',
+         'but the non-zero counter; non-finite fills change no bin; IEEE supplement Properties_C06f: reported sums and value finite under an explicit no-overflow hypothesis. Found and repaired a defect (poisoned-only iteration made the combined result NaN). Paired real runs are compared with the model.',
          'simulation relation (equal up to nz counters) proved by induction over calls and iterations; paired-run correspondence',
          'Channel maps must honour their documented contract; overflow of finite sums is not excluded by proof.'),
  'C07': ('Real-arithmetic theorems about the model\'s refine_pdf / icdf: no out-of-bounds scan, endpoints 0 and 1, non-decreasing (strict stays strict), equal share of importance per new bin, '
@@ -54,7 +54,7 @@ P = {
          'order-law-generic bisection proof + Flocq monotonicity proof; boundary-exhaustive correspondence',
          'libstdc++ upper_bound / partial_sum / generate_canonical are modelled (validated by the tie).'),
  'C10': ('Law-generic theorems: an iteration of N calls advances the generator by exactly N x d (N x (d+1) multi-channel) canonical numbers whatever the integrand returns; the stored generator is '
-         'the advanced one; the translated usage predictor equals ceil(b / log2 R). Real engines (nine standard + synthetic) are measured against the predictor by a C++-only check.',
+         'the advanced one; the translated usage predictor equals ceil(b / log2 R); supplement Properties_C10m: the same stored positions on every rank of the lock-step MPI model. Real engines (nine standard + synthetic) are measured against the predictor by a C++-only check.',
          'induction over calls on the iteration model + translated predictor arithmetic + draw counting on real engines',
          'floor(log2 R) agreement between hep-mc and libstdc++ is measured, not proved.'),
  'C11': ('Real-arithmetic theorems about the model\'s fill1d / fill2d: a finite value goes to flat index ky*bx+kx iff the coordinate lies in that half-open bin, to no bin outside; mid-points enumerate the '
@@ -62,7 +62,7 @@ P = {
          'case analysis on the executed fill model over the reals + Flocq no-UB lemma; edge/neighbour correspondence',
          'Edge coordinates within one rounding error may go to either bin (as the property grants; the float theorems quantify that zone); fill2d placement under rounding is tied, not proved.'),
  'C12': ('Law-generic protocol theorems on the driver loop: iterations in order, callback once per iteration with exactly the results so far, stop iff it returns false; built-in decision: '
-         'target 0 never stops (incl. NaN), positive target stops exactly at the first iteration whose combined relative error is <= target (NaN does not reach a target).',
+         'target 0 never stops (incl. NaN), positive target stops exactly at the first iteration whose combined relative error is <= target (NaN does not reach a target); supplement Properties_C12m: the same protocol for every rank of the three MPI drivers.',
          'induction over the calls list on the run model + IEEE comparison lemmas; scripted-callback correspondence',
          ''),
  'C13': ('Real-arithmetic theorems about the model\'s combiners (repaired code): formulas, between min and max, error <= each S_i, permutation invariance, skipping of results without finite non-zero calls, '
@@ -81,7 +81,7 @@ P = {
          'integer theorems (lia/nia) about definitions translated from the headers on every run + exhaustive small-domain correspondence',
          'Range hypotheses: totals < 2^64, world < 2^31.'),
  'C17': ('Law-generic trace theorems: per call exactly one integrand event (PLAIN, VEGAS); multi-channel calls are MapCoords(enabled channel, same numbers, full enabled list), Integrand, then density requests '
-         'only if value non-zero / weight requested, with the same coordinates; coordinates in the unit interval (PLAIN/map numbers half-open, VEGAS inside its reported bin, over the reals); selected channel enabled (R and IEEE).',
+         'only if value non-zero / weight requested, with the same coordinates; coordinates in the unit interval (PLAIN/map numbers half-open, VEGAS inside its reported bin - over the reals and, Properties_C17f, for the IEEE formats); selected channel enabled (R and IEEE).',
          'induction over calls on event traces of the iteration model; event-log correspondence incl. buffer identity',
          'Object lifetime / aliasing of the point classes is visible only to the harness checks (buffer identity events).'),
  'C18': ('File-system model theorems: for any text, any chunking into writes and any crash point (between operations or inside a write) the final name holds the previous or the complete new text; whole runs; '
@@ -89,11 +89,11 @@ P = {
          'crash-prefix invariant over an operation-list model + LD_PRELOAD system-call correspondence + kill enumeration',
          'POSIX rename atomicity and kill semantics are assumptions; no power-loss model.'),
  'C19': ('Law-generic theorems: iteration k+1 samples with refine(state_k, adjustment_k) under the checkpoint\'s parameters, result k records the state its points were drawn with, iteration 0 uses the user\'s '
-         '(normalised) state or the uniform default; every event of an iteration is a point of that recorded state.',
+         '(normalised) state or the uniform default; every event of an iteration is a point of that recorded state; supplement Properties_C19m: the same threading on every rank of the MPI drivers.',
          'induction over the run model + bit-exact correspondence of states and points (serial, resumed)',
          ''),
  'C20': ('Theorems: the drivers depend on the callback only through its answers, which are mode-free; index safety of the summary printers for every weight vector (sorted channel permutation, all printed indices in range, '
-         'ranges cover exactly the minimal-weight channels, pairwise maximum defined); real runs in all four modes are compared with each other and with the model, summary skeletons parsed from the real output.',
+         'ranges cover exactly the minimal-weight channels, pairwise maximum defined); supplement Properties_C20m: MPI drivers and mpi_callback; real runs in all four modes are compared with each other and with the model, summary skeletons parsed from the real output.',
          'structural proofs about the callback / summary model + four-mode correspondence and summary skeleton comparison',
          'Mode independence of the decision is true by construction of the model; its substance is carried by the correspondence.'),
 }
